@@ -54,3 +54,15 @@ def input_kinds(data):
     yield RawForward.kind, raw, raw.consumed
     raw2 = RawForward(data)
     yield "buffered-over-forward-only", io.BufferedReader(raw2), None
+    # buffered readers whose internal buffer is shorter than a value: peek() returns what is left of the buffer, a
+    # read that crosses a buffer refill is served in two pieces
+    yield "buffered-seekable-5-byte-buffer", io.BufferedReader(io.BytesIO(data), buffer_size=5), None
+    yield "buffered-over-forward-only-3-byte-buffer", io.BufferedReader(RawForward(data, chunk=2), buffer_size=3), None
+    import tempfile
+    tf = tempfile.TemporaryFile("w+b", buffering=7)
+    try:
+        tf.write(data)
+        tf.seek(0)
+        yield "real-file-7-byte-buffer", tf, None
+    finally:
+        tf.close()
